@@ -1701,7 +1701,7 @@ Proof.
   intros C0 UR. pose proof C0 as [I G N F C]. unfold finish.
   destruct (alookup h (heap s)) as [a|] eqn:L; [|exact C0].
   destruct (a_finished a) eqn:Fa; [exact C0|].
-  specialize (UR _ eq_refl eq_refl).
+  specialize (UR _ eq_refl Fa).
   match goal with |- context [set_heap s h ?x] => set (af := x) end.
   assert (Sa : a_sers a = None) by eauto.
   assert (S0 : Step i s (set_heap s h af)).
@@ -1718,9 +1718,9 @@ Proof.
   - pose proof (fields_for_exception_step i cfg c s0 e (proj1 S0)) as S1.
     pose proof (fields_for_exception_cinv (Some h) c s0 e C1) as C2.
     destruct (fields_for_exception cfg c s0 e) as [s' xf]. cbn [fst] in *.
-    apply finish_tail_cinv; auto; [eapply Step_trans; eauto|].
+    apply (finish_tail_cinv c s s' h a); auto; [eapply Step_trans; eauto|].
     right. apply fget_fset_same.
-  - apply finish_tail_cinv; auto. left. apply fget_fset_same.
+  - apply (finish_tail_cinv c s s0 h a); auto. left. apply fget_fset_same.
 Qed.
 
 (* --- the stronger discipline -------------------------------------------------------- *)
@@ -1946,3 +1946,120 @@ Proof.
 Qed.
 
 End Contig.
+
+(* ====================================================================== *)
+(* 10. theorem 2: contiguity                                              *)
+(* ====================================================================== *)
+Lemma hcovered_bound hp nu idz t h a k :
+  PI hp nu idz t -> alookup h hp = Some a -> 1 <= k ->
+  hcovered hp (a_uuid a) (a_level a ++ [Pos.of_nat k]) -> k <= a_last a.
+Proof.
+  intros P L K (h0 & a0 & k0 & L0 & U0 & EQ & K0). apply app_tail_inj in EQ as [V0 EK].
+  assert (h0 = h) by (eapply (pi_nodes _ _ _ _ P); eauto). subst h0.
+  rewrite L in L0; inversion L0; subst a0. lia.
+Qed.
+
+Lemma used_bound hp nu idz t h a k :
+  PI hp nu idz t -> alookup h hp = Some a -> 1 <= k ->
+  used hp idz t (a_uuid a) (a_level a ++ [Pos.of_nat k]) -> k <= a_last a.
+Proof.
+  intros P L K [(m & I & Pm)|[(h1 & a1 & L1 & U1 & V1)|(slot & L1)]].
+  - destruct (pi_trace _ _ _ _ P m I) as (u & l & Pm' & C). rewrite Pm in Pm'.
+    apply mkplace_inj in Pm' as [<- <-]. destruct C as [C|(_ & _ & C3)].
+    + eapply hcovered_bound; eauto.
+    + exfalso. eapply C3; eauto.
+  - destruct (pi_parent _ _ _ _ P _ _ L1) as [E|C].
+    + rewrite V1 in E. destruct (a_level a); discriminate.
+    + rewrite U1, V1 in C. eapply hcovered_bound; eauto.
+  - eapply hcovered_bound; eauto. eapply pi_ids; eauto.
+Qed.
+
+Section Theorem2.
+Variable cfg : config.
+Variable i : nat.
+
+(* 2. per action object: the positions used directly under it (by messages of the
+      trace, by child / continued actions, by serialized task ids) are exactly
+      1.._last_child; its start message sits at position 1; once finished, its end
+      message sits at the last position *)
+Theorem C02_contiguous c0 ds ops :
+  observed i ds -> disciplined2 i cfg ops (registered ds) = true ->
+  let s := final cfg c0 ds ops in
+  forall h a, alookup h (heap s) = Some a ->
+    (forall k, 1 <= k ->
+       (used (heap s) (ids s) (trace_of s i) (a_uuid a) (a_level a ++ [Pos.of_nat k])
+        <-> k <= a_last a)) /\
+    (exists m, In m (trace_of s i) /\
+       (fget K_uuid m, fget K_level m) =
+         (Some (VUuid (a_uuid a)), Some (VLevel (a_level a ++ [1%positive]))) /\
+       fget K_status m = Some (VStatus Started)) /\
+    (a_finished a = true ->
+     exists m, In m (trace_of s i) /\
+       (fget K_uuid m, fget K_level m) =
+         (Some (VUuid (a_uuid a)), Some (VLevel (a_level a ++ [Pos.of_nat (a_last a)]))) /\
+       (fget K_status m = Some (VStatus Succeeded) \/ fget K_status m = Some (VStatus Failed))).
+Proof.
+  intros O D s h a L. unfold s in *. rewrite final_eq in *.
+  pose proof (run_cinv i cfg ops _ (CInv_registered i ds O) D) as [I _ _ _ C].
+  pose proof (inv_PI _ _ I) as P.
+  split; [|split].
+  - intros k K. split.
+    + eapply used_bound; eauto.
+    + intros K2. eapply ci_used; eauto.
+  - eapply ci_start; eauto.
+  - intros F. eapply ci_end; eauto. discriminate.
+Qed.
+
+(* the stronger discipline implies the weaker one: theorems 1 and 3 apply as well *)
+Theorem C02_contiguous_unique c0 ds ops :
+  observed i ds -> disciplined2 i cfg ops (registered ds) = true ->
+  NoDup (map (fun m => (fget K_uuid m, fget K_level m)) (trace_of (final cfg c0 ds ops) i)).
+Proof. intros O D. apply C02_unique; auto using disciplined2_disciplined. Qed.
+
+End Theorem2.
+
+Module Ex2.
+Import Ex.
+(* no serializers; every finish happens after the action has left every context *)
+Definition prog1 : list stmt :=
+  [ SMsg (A 20) [] None;
+    SAct 1 WithBlock false (A 21) [] None [(12%positive, VInt 3)]
+      [ SMsg (A 22) [] None;
+        SAct 2 CtxFinish false (A 23) [] None []
+          [ SActLog 1 (A 24) [];
+            SHandoff 2 0 3 1 [ SMsg (A 25) [] None ];
+            SAct 5 RunFinish true (A 29) [] None [] [ SMsg (A 30) [] None ] ];
+        STraceback e1;
+        SSpawn 2 [ SMsg (A 26) [] None ];
+        STry [ SAct 6 WithBlock false (A 31) [] None [] [ SRaise e1 ] ] ];
+    SAct 4 RunFinish true (A 27) [] None [] [ SRaise e1 ] ].
+
+Definition ops1 : list (nat * op) := fst (compile 0 prog1).
+
+Example ex_disciplined2 : disciplined2 0 cfg0 ops1 (registered dests0) = true.
+Proof. vm_compute. reflexivity. Qed.
+
+Example ex_nontrivial2 :
+  length ops1 = 71 /\ length (trace_of (final cfg0 0 dests0 ops1) 0) = 40.
+Proof. vm_compute. split; reflexivity. Qed.
+
+(* the finish discipline is needed: finish() while the action is still current, with
+   another destination failing on the end message, puts the failure report AFTER the end
+   message inside the finished action (DESIGN F6): the end message is not at the last position *)
+Definition dests_f6 : list dest := [mk_dest 0 BNever e1; mk_dest 1 BOnEnd e1].
+Definition ops_f6 : list (nat * op) :=
+  [(0, OStart 1 false (A 21) [] None); (0, OCtxEnter 1); (0, OFinish 1 None); (0, OCtxExit)].
+
+Example f6_not_disciplined2 : disciplined2 0 cfg0 ops_f6 (registered dests_f6) = false.
+Proof. vm_compute. reflexivity. Qed.
+
+Example f6_still_disciplined : disciplined 0 cfg0 ops_f6 (registered dests_f6) = true.
+Proof. vm_compute. reflexivity. Qed.
+
+Example f6_end_not_last :
+  map (fun m => (fget K_level m, fget K_status m)) (trace_of (final cfg0 0 dests_f6 ops_f6) 0) =
+  [ (Some (VLevel [1%positive]), Some (VStatus Started));
+    (Some (VLevel [2%positive]), Some (VStatus Succeeded));
+    (Some (VLevel [3%positive]), None) ].
+Proof. vm_compute. reflexivity. Qed.
+End Ex2.
